@@ -111,6 +111,18 @@ func main() {
 		}
 		x.Add(x, one)
 	}
+	// r < p-n with r+n an x-coordinate, of every size (the second candidate is computed by a multi-limb addition and
+	// range check: small r, r around each limb boundary, r close to p-n)
+	for _, start := range []*big.Int{big.NewInt(1), new(big.Int).Lsh(one, 63), new(big.Int).Lsh(one, 64), new(big.Int).Sub(new(big.Int).Lsh(one, 127), big.NewInt(40)), new(big.Int).Lsh(one, 127), new(big.Int).Lsh(one, 128), new(big.Int).Rsh(pn, 1)} {
+		x := new(big.Int).Set(start)
+		for found, i := 0, 0; i < 400 && found < 2; i++ {
+			if _, ok := ref.LiftX(new(big.Int).Add(x, ref.N), 0); ok && x.Cmp(pn) < 0 {
+				addr(x)
+				found++
+			}
+			x.Add(x, one)
+		}
+	}
 	svals := []*big.Int{one, big.NewInt(2), nm1, ref.HalfN, new(big.Int).Add(ref.HalfN, one), big.NewInt(0)}
 	sha := func(s string) []byte { return ref.TaggedHash("verif/C11", []byte(s)) }
 	digests := [][]byte{sha("a"), make([]byte, 32), bytes.Repeat([]byte{0xff}, 32), ref.B32(ref.N), ref.B32(one), append(sha("a"), 1, 2, 3), sha("a")[:31], {}, append(sha("b"), sha("c")...)}
